@@ -279,7 +279,10 @@ def run_handover_cap(sc, chooser):
         s.spawn(name, logger(ids))
     s.spawn("A", adder)
     s.run(chooser)
-    return {"pre": sc["pre"], "late": sorted(racing), "offered": [offered[d] for d in sc["dests"]], "gf": 1 if sc.get("gf") else 0,
+    pre = list(sc["pre"])
+    if pre != list(range(pre[0], pre[0] + len(pre))) if pre else False:
+        raise RuntimeError("handover_cap: the buffered ids must be consecutive")
+    return {"pre_lo": pre[0] if pre else 1, "pre_hi": pre[-1] if pre else 0, "late": sorted(racing), "offered": [offered[d] for d in sc["dests"]], "gf": 1 if sc.get("gf") else 0,
             "errors": [repr(t.error) for t in s.threads.values() if t.error] + ([s.deadlock] if s.deadlock else [])}, s.steps
 
 
